@@ -163,7 +163,12 @@ inline int run_main(int argc, char **argv, std::vector<Case> &cases) {
     }
     std::ifstream in(a[2]);
     std::string nm, val;
-    while (in >> nm >> val) Engine::get().model[nm] = sym::parse_q(val);
+    while (in >> nm >> val) {
+      if (val.rfind("bits:", 0) == 0)
+        Engine::get().fmodel[nm] = std::stoull(val.substr(5));
+      else
+        Engine::get().model[nm] = sym::parse_q(val);
+    }
     signal(SIGSEGV, on_signal);
     signal(SIGABRT, on_signal);
     signal(SIGFPE, on_signal);
